@@ -121,9 +121,10 @@ theorem dir_post {ctx : Ctx κ} (g : Good ctx) {es : List (Name × Node κ)}
   · intro s'' hle'' strat2 k
     obtain ⟨o, ho, hb⟩ := hle'' (m.digest ctx) m (Store.get_put_self _ _ _)
     have hread : readManifest ctx s'' (m.digest ctx) = .ok (childrenOf ctx es) := by
-      rw [readManifest_of_bytes g ho (sch := .new) (p := nm) (cs := childrenOf ctx es) hb]
-      rw [map_reload_childrenOf ctx .new es
-        (fun e he sum isDir => (hn e.1 (mem_allNamesList_of_mem he)).2 .new sum isDir)]
+      have hmap := map_reload_childrenOf ctx .new es
+        (fun e he sum isDir => (hn e.1 (mem_allNamesList_of_mem he)).2.1 .new sum isDir)
+      rw [readManifest_of_bytes g ho (sch := .new) (p := nm) (cs := childrenOf ctx es) hb
+        (by rw [hmap]; exact childrenOK_childrenOf hn), hmap]
     have hfuel : depth (Node.dir es) + k = (depthList es + k) + 1 := by
       simp only [depth]; omega
     obtain ⟨res, hres, hdres⟩ := hco2 s'' (Store.le_trans hlep hle'') strat2
@@ -461,7 +462,12 @@ def tree : Node K :=
 theorem tree_plain : tree.plain = true := by simp [tree, Node.plain, plainList]
 theorem tree_sorted : tree.sorted = true := by
   simp [tree, Node.sorted, sortedList, headName]; decide
-theorem tree_names : NamesOK ctx tree := fun _ _ => ⟨rfl, fun _ _ _ => rfl⟩
+theorem tree_names : NamesOK ctx tree := by
+  intro nm h
+  refine ⟨rfl, fun _ _ _ => rfl, ?_⟩
+  simp only [tree, allNames, allNamesList, List.mem_cons, List.mem_append, List.not_mem_nil,
+    List.append_nil, or_false, List.nil_append] at h
+  rcases h with rfl | rfl | (rfl | rfl) | rfl <;> decide
 theorem tree_depth : depth tree = 3 := by simp [tree, depth, depthList]
 theorem empty_consistent : Consistent ctx [] := by
   intro d o h; simp [Store.get, alookup] at h
@@ -544,6 +550,14 @@ end Example
 #print axioms dir_post
 #print axioms namesOK_node
 #print axioms namesOK_tail
+#print axioms namesOK_head_entry
+#print axioms childrenOK_childrenOf
+#print axioms checkedChildren_eq_ok
+#print axioms readManifest_childrenOK
+#print axioms readManifest_man
+#print axioms readManifest_man_bad
+#print axioms readManifest_of_bytes
+#print axioms readManifest_eq_dec
 #print axioms commitNode_post
 #print axioms commitEntries_post
 #print axioms commit_fresh_roundtrip
